@@ -20,7 +20,8 @@ from .c12 import Server
 MOD = "example.com/m"
 ALL_FILES_STAGES = ["template-missing-all-files", "template-404-all-files"]   # every file of package p shares one template that cannot be retrieved
 STAGES = ["template-truncated", "template-missing", "template-404", "template-missing-schema-not-required", "template-404-schema-not-required", "schema-missing", "schema-invalid-iface", "schema-invalid-file", "template-parse", "template-exec", "format"]
-STATES = ["absent", "prev-long", "prev-short", "user", "user-marker", "dir"]
+STATES = ["absent", "prev-long", "prev-short", "user", "user-marker", "dir", "dirlink"]   # dirlink: occupied by a symbolic link to a directory
+DIRLIKE = ("dir", "dirlink")
 
 BYSTANDERS = {
     "p/notes.txt": "user notes\n", "p/.hidden": "dot\n", "other/mocks_test.go": "package other\n\n// hand written, looks like an output\n",
@@ -200,6 +201,11 @@ def eval_case(ctx, case):
         if st == "dir":
             os.makedirs(p)
             open(os.path.join(p, "inside.txt"), "w").write("keep me\n")
+        elif st == "dirlink":
+            target = p + ".d"
+            os.makedirs(target)
+            open(os.path.join(target, "inside.txt"), "w").write("keep me\n")
+            os.symlink(os.path.basename(target), p)
         else:
             if st == "prev-long":
                 body = ref[rel] + b"\n// older, longer generation\n" + b"// padding line\n" * 200
@@ -247,7 +253,7 @@ def eval_case(ctx, case):
     if inj:
         inj_rel = outputs["q"] if inj["stage"] == "schema-invalid-file" else outputs[inj["file"]]
     blocked = [rel for rel in outputs.values() if states[rel] != "absent" and not eff_force[rel]]
-    dir_clash = [rel for rel in outputs.values() if states[rel] == "dir" and eff_force[rel]]
+    dir_clash = [rel for rel in outputs.values() if states[rel] in DIRLIKE and eff_force[rel]]
     must_fail = bool(blocked or dir_clash or inj)
     tags = ["files=%d" % len(set(outputs.values())), "formatter=" + case["formatter"]] + (["shared-file-of-%d" % case["n"]] if case.get("share") else []) + (["filename-with-directory"] if case.get("filename_subdir") else []) + (["line-directive"] if case.get("line_directive") else []) + (["env-contradicts-file"] if case.get("env_force") is not None and case.get("root_force") is not None else []) + (["inject=" + inj["stage"]] if inj else ["no-fault"]) + \
            (["blocked-by-existing"] if blocked else []) + (["dir-at-output"] if dir_clash else []) + ([] if strace else ["no-strace"])
@@ -306,9 +312,9 @@ def eval_case(ctx, case):
     for rel in outputs.values():
         p = os.path.join(root, rel)
         st = states[rel]
-        if st == "dir":
-            if not os.path.isdir(p) or open(os.path.join(p, "inside.txt")).read() != "keep me\n":
-                return Verdict.violated("directory occupying output path %s was disturbed" % rel, obs, tags)
+        if st in DIRLIKE:
+            if not os.path.isdir(p) or open(os.path.join(p, "inside.txt")).read() != "keep me\n" or os.path.islink(p) != (st == "dirlink"):
+                return Verdict.violated("%s occupying output path %s was disturbed" % ("directory" if st == "dir" else "symbolic link to a directory", rel), obs, tags)
             continue
         now = open(p, "rb").read() if os.path.isfile(p) else None
         old = before_bytes.get(rel)
